@@ -102,3 +102,13 @@ reg(Spec('C29', ['c29:C29'],
          quick=[('MISUSE', 2500), ('RACE', 500)],
          thorough=[('MISUSE', 60000), ('RACE', 10000), ('CLOSE', 10000)],
          rule=R_RUN + 'non-trivial = at least one public call raised' + R_DISTINCT))
+
+reg(Spec('C01', ['c01:C01'],
+         quick=[('DUPLEX', 1500), ('RACE', 1200), ('HDR', 800), ('UPGRADE', 400), ('FLOW', 400)],
+         thorough=[('DUPLEX', 40000), ('RACE', 40000), ('HDR', 20000), ('UPGRADE', 10000), ('FLOW', 10000)],
+         rule=R_RUN + 'non-trivial = >= 2 concurrent streams and >= 1 failed call followed by later traffic and >= 1 mid-frame delivery' + R_DISTINCT,
+         overrides={'*': {'matrix_outbound': False, 'small_closed': 0.0, 'small_backlog': False}},
+         assumptions=['closed-stream memory at its default (65536): frames on forgotten streams are the business of C20',
+                      'senders run with the default outbound validation and normalisation (a sender with validation off may emit blocks the peer must refuse: C15)',
+                      'applications are HTTP-semantically sane in calls the generator classes as valid (declared content-length equals body, no body on no-content responses, header lists within the peer MAX_HEADER_LIST_SIZE, header bytes decodable in the peer header_encoding)',
+                      'windows and increments <= 2^20 in these profiles']))
